@@ -17,6 +17,7 @@ package header
 import (
 	"net"
 	"net/http"
+	"strings"
 
 	"github.com/google/martian/v3"
 )
@@ -48,7 +49,7 @@ func NewForwardedModifier() martian.RequestModifier {
 				xff = req.RemoteAddr
 			}
 
-			if v := req.Header.Get("X-Forwarded-For"); v != "" {
+			if v := strings.Join(req.Header["X-Forwarded-For"], ", "); v != "" {
 				xff = v + ", " + xff
 			}
 
